@@ -7,7 +7,8 @@
 // etl::expected provides: explicit default ctor, in_place / unexpect ctors, implicit copy/move
 // construction and assignment, emplace, has_value/bool, * and -> , error(), value_or, and_then,
 // or_else.  Not provided (API gaps, nothing to compare): construction/assignment from a value or
-// from unexpected<E>, value(), error_or, transform, relational operators, member swap.
+// from unexpected<E>, value(), error_or, transform, transform_error, relational operators, member swap, and
+// expected<void,E> (etl::expected stores variant<T,E>: T = void does not instantiate).
 #include "c07_common.hpp"
 
 #include <etl/expected.hpp>
@@ -502,6 +503,102 @@ using TA  = mc::Tracked<mc::copy_move, 0>;
 using TB  = mc::Tracked<mc::copy_move, 1>;
 using TMO = mc::Tracked<mc::move_only, 0>;
 
+// ---------------------------------------------------------------------------------------
+// round 2: etl::unexpected<E> against std::unexpected<E> (the error carrier of expected):
+// every construction form x value, error() in four value categories, copy/move, member and
+// free swap and operator== (also unexpected<E> x unexpected<E2>) over all value pairs.
+// ---------------------------------------------------------------------------------------
+template <typename E, typename E2>
+void unexpected_sweep(mc::Reporter& r, char const* ename, int K)
+{
+    using UE = etl::unexpected<E>;
+    using US = std::unexpected<E>;
+    std::uint64_t evals = 0;
+    auto same = [&](std::string const& subject, std::string const& cls, std::string const& kase, char const* what, auto const& got, auto const& want) {
+        r.count("comparisons");
+        if (!(got == want)) { r.violation("C07", subject, cls, kase, cat(what, ": tetl ", got, " std ", want)); }
+    };
+    auto const tn = cat("unexpected<", ename, ">");
+    static_assert(std::is_same_v<decltype(etl::unexpected(make<E>(0))), UE>); // deduction guide
+    for (int a = 0; a < K; ++a) {
+        auto const kase = cat(tn, " value ", a);
+        mc::Trap t      = mc::guarded([&] {
+            UE e1(make<E>(a));
+            US s1(make<E>(a));
+            same(tn + "::unexpected(Err&&)", "general", kase, "error()", val(e1.error()), val(s1.error()));
+            E const lv = make<E>(a);
+            UE e2(lv);
+            US s2(lv);
+            same(tn + "::unexpected(Err&&)", "lvalue", kase, "error()", val(e2.error()), val(s2.error()));
+            UE e3(etl::in_place, make<E>(a));
+            US s3(std::in_place, make<E>(a));
+            same(tn + "::unexpected(in_place_t,args)", "general", kase, "error()", val(e3.error()), val(s3.error()));
+            UE e4(e1);
+            US s4(s1);
+            UE e5(std::move(e2));
+            US s5(std::move(s2));
+            same(tn + "::unexpected(unexpected const&)", "general", kase, "error()", val(e4.error()), val(s4.error()));
+            same(tn + "::unexpected(unexpected&&)", "general", kase, "error()", val(e5.error()), val(s5.error()));
+            // error() in the four value categories: value and exact type
+            UE const& ce = e4;
+            US const& cs = s4;
+            same(tn + "::error", "&", kase, "error()", val(e4.error()), val(s4.error()));
+            same(tn + "::error", "const&", kase, "error()", val(ce.error()), val(cs.error()));
+            same(tn + "::error", "&&", kase, "error()", val(std::move(e4).error()), val(std::move(s4).error()));
+            same(tn + "::error", "const&&", kase, "error()", val(std::move(ce).error()), val(std::move(cs).error()));
+            static_assert(std::is_same_v<decltype(e4.error()), E&> && std::is_same_v<decltype(ce.error()), E const&>);
+            static_assert(std::is_same_v<decltype(std::move(e4).error()), E&&> && std::is_same_v<decltype(std::move(ce).error()), E const&&>);
+            same(tn + "::error", "identity", kase, "error() refers to the stored object", &e4.error() == &ce.error(), true);
+            // write through error()
+            e4.error() = make<E>((a + 1) % K);
+            s4.error() = make<E>((a + 1) % K);
+            same(tn + "::error", "write_through", kase, "error() after assignment through the reference", val(e4.error()), val(s4.error()));
+        });
+        evals += 12;
+        if (t != mc::Trap::none) { r.violation(t == mc::Trap::assert_fired ? "C05" : "C02", tn, cat("general/", mc::trap_name(t)), kase, mc::describe_trap(t)); }
+        for (int b = 0; b < K; ++b) {
+            auto const k2  = cat(tn, " values ", a, ",", b);
+            auto const cls = a == b ? "equal_values" : "different_values";
+            mc::Trap t2    = mc::guarded([&] {
+                UE x(make<E>(a)), y(make<E>(b));
+                US mx(make<E>(a)), my(make<E>(b));
+                same(tn + " operator==", cls, k2, "x == y", x == y, mx == my);
+                same(tn + " operator==", cls, k2, "x != y", x != y, mx != my);
+                if constexpr (!std::is_same_v<E2, void>) {
+                    etl::unexpected<E2> y2(make<E2>(b));
+                    std::unexpected<E2> my2(make<E2>(b));
+                    same(tn + " operator==(unexpected<E2>)", cls, k2, "x == y2", x == y2, mx == my2);
+                    same(tn + " operator==(unexpected<E2>)", cls, k2, "y2 == x", y2 == x, my2 == mx);
+                    same(tn + " operator==(unexpected<E2>)", cls, k2, "x != y2", x != y2, mx != my2);
+                }
+                x.swap(y);
+                mx.swap(my);
+                same(tn + "::swap", cls, k2, "x after x.swap(y)", val(x.error()), val(mx.error()));
+                same(tn + "::swap", cls, k2, "y after x.swap(y)", val(y.error()), val(my.error()));
+                using etl::swap;
+                using std::swap;
+                swap(x, y);
+                swap(mx, my);
+                same(tn + " swap(x,y)", cls, k2, "x after swap(x,y)", val(x.error()), val(mx.error()));
+                same(tn + " swap(x,y)", cls, k2, "y after swap(x,y)", val(y.error()), val(my.error()));
+                x  = y;
+                mx = my;
+                same(tn + "::operator=(unexpected const&)", cls, k2, "x after x = y", val(x.error()), val(mx.error()));
+                y  = UE(make<E>(a));
+                my = US(make<E>(a));
+                same(tn + "::operator=(unexpected&&)", cls, k2, "y after y = unexpected(a)", val(y.error()), val(my.error()));
+            });
+            evals += 8;
+            r.outcome(mc::hash_str(k2));
+            if (t2 != mc::Trap::none) { r.violation(t2 == mc::Trap::assert_fired ? "C05" : "C02", tn, cat(cls, "/", mc::trap_name(t2)), k2, mc::describe_trap(t2)); }
+        }
+    }
+    r.count("evaluations", evals);
+    r.count("distinct_nontrivial", evals);
+    r.count("configurations", 1);
+    r.sample(cat(tn, ": ", K, " values, ", K * K, " ordered pairs"));
+}
+
 } // namespace
 
 int main(int argc, char** argv)
@@ -514,6 +611,16 @@ int main(int argc, char** argv)
     m.job("expected<Tracked,Err>/k3", both, [](mc::Reporter& r) { explore<ExpectedSys<TA, Err, 3>>(r); });
     m.job("expected<Tracked,TrackedB>/k3", both, [](mc::Reporter& r) { explore<ExpectedSys<TA, TB, 3>>(r); });
     m.job("expected<TrackedMoveOnly,int>/k3", both, [](mc::Reporter& r) { explore<ExpectedSys<TMO, int, 3>>(r); });
+    // round 2: trivially copyable value with a non-trivial error (the fourth trivial/non-trivial combination),
+    // value and error types that convert into each other
+    m.job("expected<int,Tracked>/k3", both, [](mc::Reporter& r) { explore<ExpectedSys<int, TA, 3>>(r); });
+    m.job("expected<long,int>/k3", both, [](mc::Reporter& r) { explore<ExpectedSys<long, int, 3>>(r); });
+    m.job("unexpected/sweep", both, [](mc::Reporter& r) {
+        unexpected_sweep<int, long>(r, "int", 4);
+        unexpected_sweep<Err, void>(r, "Err", 3);
+        unexpected_sweep<long, int>(r, "long", 3);
+    });
+    m.job("expected<int,Tracked>/k4", th, [](mc::Reporter& r) { explore<ExpectedSys<int, TA, 4>>(r); });
     m.job("expected<int,int>/k4", th, [](mc::Reporter& r) { explore<ExpectedSys<int, int, 4>>(r); });
     m.job("expected<Tracked,TrackedB>/k4", th, [](mc::Reporter& r) { explore<ExpectedSys<TA, TB, 4>>(r); });
     return m.run();
